@@ -90,3 +90,29 @@ def run(F, R):
                 gsw.append(sbb)
         ok = reads and bool(gsw) and all(any(b.dominates(s, c.bb) for s in gsw) for c in ins)
         R.check(ok, "R29.3", "do_load:cache-write-guarded", b.where(), "insert under `!disable_cache`", "cache writes are not guarded by the disable flags")
+
+    R.rule("R29.4", "who-may-write the per-type enable flag: Requests.disable_cache is stored only by enable_cache (and initialised by Requests::new), and a live "
+                    "Requests record is never replaced wholesale (`*requests = ..`, mem::replace/take) — that would silently reset the flag "
+                    "(expected count zero; zoo::negative::overwrite_state must match on every run)")
+    from common import whole_value_stores
+    dl_bodies = [b for b in F.bodies.values() if b.defp.startswith(DL + "::") and "::tests::" not in b.defp]
+    n = 0
+    for b in dl_bodies:
+        for where, how in whole_value_stores(b, r"dataloader::Requests<"):
+            n += 1
+            key = re.sub(r"\{closure#\d+\}", "{c}", re.sub(r"\{impl#\d+\}", "{impl}", b.defp.replace(DL + "::", "")))
+            R.violation("R29.4", "requests-record-replaced:" + key, where,
+                        "%s replaces a live Requests record (%s): the per-type `disable_cache` flag set by enable_cache(false) is reset, so values are served from / "
+                        "written to the cache although caching is disabled for that key type" % (b.name, how))
+        # field stores
+        for bb, s in b.all_stmts():
+            lhs = s[0]
+            if any(isinstance(x, str) and x == ".disable_cache" for x in lhs) and "Requests" in " ".join(str(b.locals[lhs[0]]) for _ in [0]):
+                key = re.sub(r"\{closure#\d+\}", "{c}", re.sub(r"\{impl#\d+\}", "{impl}", b.defp.replace(DL + "::", "")))
+                R.check(b.name in ("enable_cache",) or b.defp.endswith("enable_cache::{closure#0}"), "R29.4", "disable_cache-written-by:" + key, "%s:%s" % (b.file, s[2]),
+                        "written by enable_cache", "Requests.disable_cache is written outside enable_cache")
+    pos = [w for b in F.find(r"^zoo::negative::overwrite_state$") for w in whole_value_stores(b, r"negative::StateRecord")]
+    R.check(bool(pos), "R29.4", "positive-example:zoo::negative::overwrite_state", "zoo/src/negative.rs", "rule fires on the positive example",
+            "the wholesale-store matcher no longer matches its positive example")
+    R.check(n == 0, "R29.4", "requests-record-never-replaced", dl_bodies[0].where() if dl_bodies else "-", "no wholesale store to a Requests record in %d dataloader bodies" % len(dl_bodies),
+            "%d wholesale stores" % n)
